@@ -64,6 +64,7 @@ class Analysis:
         fresh_lists = kw.pop('fresh_lists', False)
         en = Enumerator(self.model, **kw)
         en.fresh_lists = fresh_lists
+        en.nonnull = r.returns_instance
         if transparent == 'default':
             anchors = self.anchors()
             en.transparent = lambda f: f.qualname not in anchors
